@@ -263,5 +263,82 @@ func runC05Conc(c *hx.Ctx) {
 		}
 		concRun(c, n, g, steps)
 	}
+	overlapRuns(c)
 	c.Sample(fmt.Sprintf("%d concurrent runs of 2..16 goroutines x %d operations on disjoint topics under shared ancestors s, s/+, s/x, s/x/y", runs, steps))
+}
+
+// overlapRuns: several goroutines Set the SAME topic while others query it.  Whatever the
+// interleaving, each operation takes effect atomically, so every answer equals the map's answer at
+// some instant: the topic always holds exactly one of the values being set — a reader never sees
+// it empty and never sees two values, and in the end exactly one value is left.
+func overlapRuns(c *hx.Ctx) {
+	rounds := 40
+	if c.Thorough() {
+		rounds = 400
+	}
+	bad := ""
+	for r := 0; r < rounds && bad == ""; r++ {
+		t := topic.NewStandardTree()
+		t.Set("k/x", 0)
+		var wg sync.WaitGroup
+		var mu sync.Mutex
+		report := func(s string) {
+			mu.Lock()
+			if bad == "" {
+				bad = s
+			}
+			mu.Unlock()
+		}
+		stop := make(chan struct{})
+		for w := 1; w <= 4; w++ {
+			wg.Add(1)
+			go func(w int) {
+				defer wg.Done()
+				for i := 0; i < 300; i++ {
+					t.Set("k/x", w)
+				}
+			}(w)
+		}
+		var rg sync.WaitGroup
+		for q := 0; q < 4; q++ {
+			rg.Add(1)
+			go func(q int) {
+				defer rg.Done()
+				for {
+					select {
+					case <-stop:
+						return
+					default:
+					}
+					var got []interface{}
+					switch q % 4 {
+					case 0:
+						got = t.Get("k/x")
+					case 1:
+						got = t.Match("k/x")
+					case 2:
+						got = t.Search("k/+")
+					default:
+						got = t.All()
+					}
+					if len(got) != 1 {
+						report(fmt.Sprintf("round %d: query %d on a topic that is only ever Set returned %v (exactly one value expected at every instant)", r, q%4, got))
+						return
+					}
+				}
+			}(q)
+		}
+		wg.Wait()
+		close(stop)
+		rg.Wait()
+		if fin := t.Get("k/x"); len(fin) != 1 && bad == "" {
+			bad = fmt.Sprintf("round %d: after concurrent Sets the topic holds %v (one value expected)", r, fin)
+		}
+	}
+	if bad != "" {
+		c.Emit("direct atomic_overlap FAIL %s", bad)
+	} else {
+		c.Emit("direct atomic_overlap ok %d rounds of 4 concurrent setters and 4 readers on one topic", rounds)
+	}
+	c.Stat("overlap_rounds", rounds)
 }
